@@ -93,7 +93,7 @@ RecursionCheck(T, M) == CheckMacrosFrom(T, M, 1)
 \* ---- processPaste ---------------------------------------------------------
 EmptyX == [nodes |-> <<>>, ctx |-> 0, res |-> "ok", errTok |-> 0, enumsAtPaste |-> <<>>]
 
-AsTok(n) == [t |-> "D", k |-> n.k, p |-> n.p, a |-> n.a, e |-> n.e, b |-> n.b, c |-> n.c]
+AsTok(n) == n    \* a node carries all fields of the token it came from
 
 \* Attach a copy of T-node j to X at the place context resolution decides.
 CopyInto(X, T, j, via) ==
@@ -155,7 +155,7 @@ RECURSIVE InlineNode(_, _, _), InlineList(_, _, _, _)
 InlineNode(T, M, j) ==
   LET n == T.nodes[j] IN
   IF n.k = "PASTE" THEN InlineList(T, M, Kids(T, MacroNode(M, Name1(n))), 1)
-  ELSE <<AsTok(n)>> \o InlineList(T, M, Kids(T, j), 1) \o (IF n.e THEN <<CloseTok>> ELSE <<>>)
+  ELSE <<[t |-> "D", k |-> n.k, p |-> n.p, a |-> n.a, e |-> n.e, b |-> n.b, c |-> n.c]>> \o InlineList(T, M, Kids(T, j), 1) \o (IF n.e THEN <<CloseTok>> ELSE <<>>)
 InlineList(T, M, js, i) ==
   IF i > Len(js) THEN <<>> ELSE InlineNode(T, M, js[i]) \o InlineList(T, M, js, i + 1)
 InlineDoc(T, M) == InlineList(T, M, NonMacroRoots(T), 1)
